@@ -165,6 +165,9 @@ func init() {
 				return
 			}
 			for _, t := range terms {
+				if st.enough() {
+					return
+				}
 				seq = append(seq, t)
 				if e.Extend(t) {
 					check()
